@@ -88,6 +88,9 @@ def run(ctx):
     rule_txt(ctx, F)
     rule_arr(ctx, F)
     rule_skip(ctx, F)
+    rule_handloop(ctx, F)
+    rule_hintelem(ctx, F)
+    rule_printer(ctx, F)
     # "whatever is returned as a name or record can itself be ... compared and displayed without failure":
     # the flat-slice shortcut of ParsedName is sound only if its `compressed` flag is (shared with C03), and
     # displaying NSEC3 / DS / key data goes through the base16/32/64 encoders (shared with C18)
@@ -1362,3 +1365,119 @@ def rule_clone(ctx, F):
                                    "%s::clone builds field `%s` from %s, not from self" % (m.group(1).split("::")[-1], fname or fi, show(tm)[:60]),
                                    b.where(bi))
     ctx.call_sites += n
+
+
+# ---------------------------------------------------------------------------
+# loops that drive a section by hand
+# ---------------------------------------------------------------------------
+
+def rule_handloop(ctx, F):
+    """A loop that steps a RecordSection and throws the step's result away (`let _ = section.next()`) can only end
+    through what it reads from the section's `count`.  After a record fails to parse the count is Err and every further
+    step is a no-op, so such a loop has to leave on `count = Err(_)`; without that edge one malformed record in the
+    additional section makes the call spin for ever."""
+    R = "C01.handloop"
+    ctx.floor(R, 1)
+    n = 0
+    for p, b in sorted(F.bodies.items()):
+        if "::test" in p or not re.match(r"^<?base::message::", p):
+            continue
+        cyc = cyclic_blocks(b)
+        if not cyc:
+            continue
+        bf = None
+        for bb, t in b.calls():
+            if bb not in cyc:
+                continue
+            fn = t.get("res") or t["fn"] or ""
+            if not re.search(r"RecordSection<.*> as core::iter::Iterator>::next$|RecordSection::<.*>::skip_next$", fn):
+                continue
+            loop = {x for x in cyc if bb in b.reach_from(x) and x in b.reach_from(bb)}
+            used = False
+            for sw in loop:
+                tsw = b.blocks[sw]["t"]
+                if tsw["k"] == "switch":
+                    if any(x[0] == "call" and x[5] == bb for x in walk(b.term_of_operand(tsw["d"]))):
+                        used = True
+            if used:
+                continue
+            n += 1
+            bf = bf or BranchFacts(b, F)
+            leaves = False
+            for sw in loop:
+                tsw = b.blocks[sw]["t"]
+                if tsw["k"] != "switch":
+                    continue
+                for lab, (tm, v) in bf.edge_facts(sw).items():
+                    tm = deep_strip(tm)
+                    if not (tm[0] == "field" and tm[2] == "count"):
+                        continue
+                    is_err = v == ("variant", "Err") or (isinstance(v, tuple) and v[0] == "notvariant" and "Ok" in v[1] and "Err" not in v[1])
+                    if is_err and b.edge_target(sw, lab) not in loop:
+                        # the edge must not come back
+                        if not (b.reach_from(b.edge_target(sw, lab)) & loop):
+                            leaves = True
+            ctx.ob(R, b, "a loop that discards the section step leaves when the section's count is Err", leaves,
+                   "%s steps a RecordSection in a loop, ignores what the step returns, and has no exit for `count = Err(_)`: "
+                   "after a record that does not parse every further step does nothing, and the call never returns"
+                   % p.split("::")[-1], b.where(bb))
+    ctx.call_sites += n
+
+
+def rule_hintelem(ctx, F):
+    """A list-valued SVCB parameter is checked to be a whole number of elements of the type its iterator parses:
+    the `COMPOSE_LEN` in `check_slice` is that of the iterator's item.  (The iterator `expect`s each element to parse.)"""
+    R = "C01.hintelem"
+    ctx.floor(R, 3)
+    n = 0
+    for p, b in sorted(F.bodies.items()):
+        m = re.match(r"^rdata::svcb::value::(\w+)::<\[u8\]>::check_slice$", p)
+        if not m:
+            continue
+        for bb, t in b.calls():
+            if not (t["fn"] or "").endswith("is_multiple_of"):
+                continue
+            ks = [x for a in t["args"][1:] for x in walk(deep_strip(b.term_of_operand(a))) if x[0] == "k" and "COMPOSE_LEN" in (x[3] or "")]
+            it = F.one_body(r"^<rdata::svcb::value::%sIter<.*> as core::iter::Iterator>::next$" % m.group(1))
+            if not ks or it is None:
+                continue
+            n += 1
+            item = re.match(r"^core::option::Option<(.*)>$", it.locals[0])
+            elem = re.match(r"^<(.*) as base::wire::Compose>::COMPOSE_LEN$", ks[0][3]) or re.match(r"^([\w:]+)::COMPOSE_LEN$", ks[0][3])
+            ok = bool(item and elem and item.group(1) == elem.group(1))
+            ctx.ob(R, b, "%s: the length is a multiple of the size of what the iterator parses" % m.group(1), ok,
+                   "%s::check_slice accepts lengths that are a multiple of %s, but %sIter parses (and expects to succeed) %s elements: "
+                   "a value of, say, 4 octets passes the check and the iterator panics on it"
+                   % (m.group(1), ks[0][3], m.group(1), item.group(1) if item else it.locals[0]), b.where(bb))
+    ctx.call_sites += n
+
+
+def rule_printer(ctx, F):
+    """DigPrinter walks the four sections and `unwrap`s each step to the next section.  That is sound only because a
+    record that does not parse ends the output: once an item of a section is Err, no later `answer()` / `next_section()`
+    (which re-skips the records of the section and fails on the same record) is reached."""
+    R = "C01.printer"
+    ctx.floor(R, 4)
+    b = F.one_body(r"^<base::dig_printer::DigPrinter<.*> as core::fmt::Display>::fmt$")
+    if not ctx.anchor(R, "DigPrinter::fmt", b):
+        return
+    bf = BranchFacts(b, F)
+    steps = {bb for bb, t in b.calls() if re.search(r"(QuestionSection::<.*>::answer|RecordSection::<.*>::next_section)$", t["fn"] or "")}
+    n = 0
+    for sw in sorted(b.reachable_blocks()):
+        if b.blocks[sw]["t"]["k"] != "switch":
+            continue
+        for lab, (tm, v) in sorted(bf.edge_facts(sw).items(), key=str):
+            if v != ("variant", "Err"):
+                continue
+            calls = [x[1] or "" for x in walk(tm) if x[0] == "call"]
+            if not any(c.endswith("Iterator::next") for c in calls) or not any(re.search(r"Message::<.*>::question$", c) for c in calls) \
+                    or any(re.search(r"::opt$", c) for c in calls):
+                continue
+            n += 1
+            after = b.reach_from(b.edge_target(sw, lab)) & steps
+            ctx.ob(R, b, "an unparsable item of a section ends the output #%d" % n, not after,
+                   "DigPrinter::fmt goes on to the next section (block %s) after an item of a section failed to parse: the step "
+                   "skips the same records again, fails on the same one, and its result is unwrapped -- printing a truncated "
+                   "message panics" % sorted(after)[:3], b.where(sw))
+    ctx.ob(R, b, "four section loops found", n == 4, "found %d section loops with an Err arm in DigPrinter::fmt" % n, nontrivial=False)
